@@ -320,12 +320,14 @@ func init() {
 	// Violations carry the faulted history in the detail (FH=...): reproduce that.
 	base := c.Reproduce
 	c.Reproduce = func(f *Found) (bool, error) {
-		if i := strings.LastIndex(f.Detail, "\nFH="); i >= 0 && !hasFault(f.Hist) {
-			g := *f
-			g.Hist = decodeHist(f.Detail[i+4:])
-			return base(&g)
+		g := *f
+		if j := strings.Index(g.Sig, "@"); j >= 0 {
+			g.Sig = g.Sig[:j] // the raw oracle signature; the fault class is appended by c05Eval
 		}
-		return base(f)
+		if i := strings.LastIndex(f.Detail, "\nFH="); i >= 0 && !hasFault(f.Hist) {
+			g.Hist = decodeHist(f.Detail[i+4:])
+		}
+		return base(&g)
 	}
 	c.Minimise = func(f *Found) *Found {
 		g := *f
